@@ -92,6 +92,7 @@ class FuncResult(object):
         self.summary = None
         self.calls = []          # (ins, target) target = ('func', key)|('ext', name)|('ind', None)
         self.frames = set()
+        self.frame_limit = {}    # aligned-frame id -> bytes above the aligned rsp that are certainly the function's own
         self.min_sp = 0
         self.ins_visited = 0
         self.assumed_indexed = 0
@@ -413,6 +414,8 @@ class Interp(object):
         if size == 8:
             stack[k] = v
         if res is not None:
+            if av[0] == "fr" and av[1] in res.frame_limit and av[2] + (size or 1) > res.frame_limit[av[1]] >= 0:
+                res.findings.append(("R19.7", "store-beyond-frame", "store of %d byte(s) at [aligned rsp %+d] reaches beyond the %d bytes this function allocated below its saved registers: when the alignment slack is 0 it overwrites the saved callee-saved registers (or the return address)" % (size or 0, av[2], res.frame_limit[av[1]]), i.addr))
             if av[0] == "sp":
                 res.min_sp = min(res.min_sp, av[1])
                 if av[1] + (size or 1) > 0:
@@ -680,6 +683,13 @@ class Interp(object):
                 regs["RSP"] = ("fr", i.addr, 0)
                 if res is not None:
                     res.frames.add(i.addr)
+                    if sp[0] == "sp":
+                        # bytes this function owns above the aligned rsp for certain: from the pre-alignment rsp up to
+                        # the lowest slot that already holds something (pushed registers), or up to the return address
+                        used = [-k[1] for k in stack if k[0] == "sp" and isinstance(k[1], int) and -sp[1] > -k[1] > 0]
+                        lim = -sp[1] - (max(used) if used else 0)
+                        old_l = res.frame_limit.get(i.addr)
+                        res.frame_limit[i.addr] = lim if old_l is None else min(old_l, lim)
             else:
                 regs["RSP"] = TOP
         elif op in ("MOV64rr", "MOV32rr"):
